@@ -192,7 +192,10 @@ fn main() {
     let mut in_def = false;
     for line in stdin.lock().lines() {
         let line = line.unwrap();
-        if let Some(rest) = line.strip_prefix("#DEF ") {
+        if let Some(rest) = line.strip_prefix("#NAME ") {
+            let n = rest.trim();
+            writeln!(w, "#NAME {}\t{}\t{}", n, codegen::utils::to_snake_case(n), codegen::utils::to_pascal_case(n)).unwrap();
+        } else if let Some(rest) = line.strip_prefix("#DEF ") {
             id = rest.trim().to_string();
             buf.clear();
             in_def = true;
